@@ -181,7 +181,7 @@ func checkC19(c *core.Ctx) error {
 	// ---------------- R6 directions
 	checkAvlDirections(c, pkg)
 	// ---------------- R7 mirror twins
-	c.Rule("C19.R7", "the left- and right-handed procedures of the balance bookkeeping are mirror images (Left<->Right, balance factor k <-> -k, <= <-> >=): balance1/balance2, rotateLL/rotateRR, rotateLR/rotateRL, and the two descent branches of insert and delete", 5)
+	c.Rule("C19.R7", "the left- and right-handed procedures of the balance bookkeeping are mirror images (Left<->Right, balance factor k <-> -k, <= <-> >=): balance1/balance2, rotateLL/rotateRR, rotateLR/rotateRL, the two descent branches of insert and delete and the two only-child promotions", 6)
 	for _, pr := range [][2]string{{"balance1", "balance2"}, {"rotateLL", "rotateRR"}, {"rotateLR", "rotateRL"}} {
 		a, b := core.FindMethod(pkg, "AvlNode", pr[0]), core.FindMethod(pkg, "AvlNode", pr[1])
 		cons := "(*AvlNode)." + pr[0] + " ~ " + pr[1]
@@ -236,6 +236,32 @@ func checkC19(c *core.Ctx) error {
 		cons := fmt.Sprintf("(*AvlNode).%s left ~ right branch", fd.Name.Name)
 		ta, tb := mirrorText(info, lt.Body, false), mirrorText(info, gt.Body, true)
 		c.Check(ta == tb, "C19.R7", cons, "mirror images", gt.Pos(), "the branches for i < Value and i > Value are not mirror images of each other: deletions on the two sides rebalance differently")
+	})
+	// sibling blocks guarded by obj.Right == nil / obj.Left == nil (promotion of the only child) mirror each other
+	core.EachFunc(pkg, func(_ *ast.File, fd *ast.FuncDecl) {
+		if fd.Recv == nil || core.RecvTypeName(fd) != "AvlNode" || fd.Body == nil {
+			return
+		}
+		var onlyLeft, onlyRight *ast.IfStmt // obj.Right == nil -> only a left child; obj.Left == nil -> only a right child
+		for _, st := range fd.Body.List {
+			is, ok := st.(*ast.IfStmt)
+			if !ok || is.Else != nil {
+				continue
+			}
+			switch exprStr(is.Cond) {
+			case "obj.Right==nil":
+				onlyLeft = is
+			case "obj.Left==nil":
+				onlyRight = is
+			}
+		}
+		if onlyLeft == nil || onlyRight == nil {
+			return
+		}
+		cons := fmt.Sprintf("(*AvlNode).%s only-left ~ only-right child", fd.Name.Name)
+		ta, tb := mirrorText(info, onlyLeft.Body, false), mirrorText(info, onlyRight.Body, true)
+		c.Check(ta == tb, "C19.R7", cons, "mirror images", onlyRight.Pos(),
+			"the blocks that promote the only child (obj.Right == nil / obj.Left == nil) are not mirror images: one side leaves a link (for example the promoted child's Parent) in a different state than the other")
 	})
 	// the two descent directions inside one procedure (case i < obj.Value / case i > obj.Value) mirror each other
 	core.EachFunc(pkg, func(_ *ast.File, fd *ast.FuncDecl) {
